@@ -120,7 +120,7 @@ func init() {
 	}
 	registry["C19"] = &propCfg{
 		Engine: conc.Engine{}, EngineName: "conc", Level: "exploration", Race: true, RunsPerProc: 8, GoMaxProcs: "1",
-		QuickRuns: 16000, ThoroughRuns: 400000, QuickCapS: 50, ThoroughCapS: 900,
+		QuickRuns: 8000, ThoroughRuns: 300000, QuickCapS: 50, ThoroughCapS: 900,
 		Rule: "one run = 2-6 caller goroutines, each with a seeded program of 1-4 pipeline operations on instances of its own (fold->encoder->writer, reader->parser->unfolder, transcode, fold->unfold, iterator+unfolder reused across values, per-instance custom folders/unfolders that differ between tasks for the same Go type) over shared read-only documents, Go values and Go types, executed under the serialized seeded task scheduler (policy drawn from 7: uniform, sticky .5/.9/.99, round-robin, random priorities, run-to-completion) with a task switch possible at every Read, Write (before the buffer is consumed) and visitor event; a worker process executes at most 8 runs so that first use of every type happens under contention; evaluations = runs; distinct by (interleaving digest, programs) and non-trivial if more task switches than tasks occurred",
 		Components: map[string][]string{
 			"real": {"gotype.Fold/Iterator/Unfolder incl. reflection-based compilation and type registries", "json/ubjson/cborl Parser and Visitor", "Go race detector (-race) as oracle"},
